@@ -6,12 +6,14 @@ pub struct FmtError {}
 pub type FmtResult = Result<(), FmtError>;
 impl Formatter {
     pub uninterp spec fn out(&self) -> Seq<char>;
+    // the width the caller asked for: xeh passes its formatting flags there; writing does not change it
+    pub uninterp spec fn wd(&self) -> Option<usize>;
     #[verifier::external_body] pub fn write_str(&mut self, s: &str) -> (r: FmtResult)
-        ensures r is Ok ==> final(self).out() == old(self).out() + s@
+        ensures r is Ok ==> final(self).out() == old(self).out() + s@, final(self).wd() == old(self).wd()
     { unimplemented!() }
     #[verifier::external_body] pub fn write_char(&mut self, c: char) -> (r: FmtResult)
-        ensures r is Ok ==> final(self).out() == old(self).out().push(c)
+        ensures r is Ok ==> final(self).out() == old(self).out().push(c), final(self).wd() == old(self).wd()
     { unimplemented!() }
 }
-#[verifier::external_body] pub fn verif_write(f: &mut Formatter) -> FmtResult { unimplemented!() }
+#[verifier::external_body] pub fn verif_write(f: &mut Formatter) -> (r: FmtResult) ensures final(f).wd() == old(f).wd() { unimplemented!() }
 #[verifier::external_body] pub fn verif_fmt_width(w: usize) requires w <= u16::MAX { unimplemented!() }
